@@ -202,9 +202,102 @@ def train_runs():
     return n, fails
 
 
+def protocol_run(K, validation):
+    """native replay of the train-loop protocol: real ml.train for K epochs with a recording stop condition and a recording
+    wrapper around the real train_step; every clause of the loop contract is compared on the recorded run"""
+    import jax, equinox as eqx, optax, jax.random as random
+    import ginjax.geometric as geom
+    import ginjax.models as models
+    import ginjax.ml.training as T
+    from ginjax.ml.stopping_conditions import StopCondition
+
+    class Tiny(models.MultiImageModule):
+        w: jax.Array
+
+        def __init__(self, w):
+            self.w = jnp.array(w, dtype=jnp.float32)
+
+        def __call__(self, x, aux=None):
+            return x, aux
+
+    X = geom.MultiImage({(0, 0): jnp.arange(1, 1 + 6 * 4, dtype=jnp.float32).reshape((6, 1, 2, 2)) / 24.0}, 2)
+    V = geom.MultiImage({(0, 0): jnp.ones((2, 1, 2, 2)) * 0.5}, 2)
+
+    def map_and_loss(m, x, y, aux):
+        return (m.w - 3.0) ** 2 * jnp.mean(x[(0, 0)]), aux
+
+    steps, calls = [], []
+    orig = T.train_step
+
+    def rec_step(mal, model, optim, opt_state, x, y, aux=None):
+        out = orig(mal, model, optim, opt_state, x, y, aux)
+        steps.append((float(model.w), float(out[0].w), float(out[2]), len(calls)))
+        return out
+
+    class Spy(StopCondition):
+        def __init__(self):
+            super().__init__(verbose=0)
+
+        def stop(self, model, current_epoch, train_loss, val_loss, epoch_time):
+            calls.append((float(model.w), current_epoch, train_loss, val_loss))
+            if len(calls) == 2:
+                self.best_model = "BEST"
+            return len(calls) > K
+    T.train_step = rec_step
+    try:
+        res = ml.train(X, X, map_and_loss, Tiny(0.5), random.PRNGKey(0), Spy(), 2, optax.sgd(0.01),
+                       V if validation else None, V if validation else None)
+    finally:
+        T.train_step = orig
+    bad = []
+    if len(calls) != K + 1:
+        bad.append(f"stop() consulted {len(calls)} times for {K} epochs")
+    if calls and (calls[0][1] != 0 or calls[0][2] is not None or calls[0][3] is not None):
+        bad.append(f"before the first epoch stop() saw {calls[0]!r}")
+    for i in range(1, min(len(calls), K + 1)):
+        w, ep, tl, vl = calls[i]
+        mine = [s_ for s_ in steps if s_[3] == i]
+        if ep != i:
+            bad.append(f"call {i}: current_epoch={ep}")
+        if not mine:
+            bad.append(f"call {i}: no training step in the epoch")
+            continue
+        if abs(mine[-1][1] - w) > 1e-6:
+            bad.append(f"call {i}: stop() saw w={w}, the model after the last step has w={mine[-1][1]}")
+        if abs(mine[0][0] - calls[i - 1][0]) > 1e-6:
+            bad.append(f"epoch {i} does not start from the model stop() was consulted with")
+        for a, b in zip(mine, mine[1:]):
+            if abs(a[1] - b[0]) > 1e-6:
+                bad.append(f"epoch {i}: a step does not start from the previous step's model")
+        mean = sum(s_[2] for s_ in mine) / len(mine)
+        if tl is None or abs(float(tl) - mean) > 1e-5 * max(1.0, abs(mean)):
+            bad.append(f"call {i}: train loss {tl} is not the mean {mean} of the epoch's batch losses")
+        if validation:
+            exp = (w - 3.0) ** 2 * 0.5
+            if vl is None or abs(float(vl) - exp) > 1e-4 * max(1.0, abs(exp)):
+                bad.append(f"call {i}: validation loss {vl} is not that of the current model ({exp})")
+        elif vl is not None:
+            bad.append(f"call {i}: validation loss without validation data")
+    if res[0] != ("BEST" if K >= 1 else res[0]) :
+        bad.append(f"train returned {res[0]!r} instead of stop_condition.best_model")
+    return bad
+
+
 def main():
     mode = sys.argv[1]
     req = json.loads(sys.stdin.read() or "{}")
+    if mode in ("replay", "search") and req.get("cls") == "train" and req.get("protocol"):
+        mdl = req.get("model") or {}
+        K = int(req.get("k", 2))
+        for key, v in mdl.items():
+            if key.split("!")[0] in ("e", "e_exit"):
+                try:
+                    K = max(K, min(int(str(v)) + 2, 150))
+                except ValueError:
+                    pass
+        bad = protocol_run(K, bool(req.get("validation")))
+        print(json.dumps({"ok": True, "confirmed": bool(bad), "detail": bad[:3], "call": f"ml.train for {K} epochs with a recording stop condition"}))
+        return
     if mode in ("replay", "search") and req.get("cls") == "train":
         n, f = train_runs()
         print(json.dumps({"ok": True, "confirmed": bool(f), "detail": f[:2]}))
